@@ -65,25 +65,43 @@ def tcp_scenario(rng, sid):
     acc = None
     nconn = rng.choice([1, 1, 2, 3])
     sip = rng.choice(cfg.v4(srv))
+    last = None; last_cli = None
     for k in range(nconn):
         cli = rng.choice(others)
+        # a connector OBJECT that is closed and dials again, to another server address (an acceptor of its own there):
+        # the path MTU pair of its second connection differs from that of its first
+        redial = last is not None and rng.random() < 0.3
+        if redial: cli = last_cli
         explicit = rng.random() < 0.5
         cip = rng.choice(cfg.v4(cli)) if explicit else cfg.v4(cli)[0]
-        # (the object a socket-returning accept creates exists only once that accept completed: never reused by name)
-        reuse_ss = acc is not None and not acc["fresh"] and not acc.get("moved") and rng.random() < 0.3
-        # one accept at a time: the next one is issued from the previous accept's handler, or (when
-        # the accepted socket object is reused) much later
-        if k == 0: ctx = "top"
-        elif reuse_ss: ctx = P.at(3000000000 * k)
-        else: ctx = last["hacc"]
-        c = tg.connect(rng, P, cfg, 8000, srv, cli, sip=sip, a=(acc["a"] if acc else None),
-                       ss=(acc["ss"] if reuse_ss else None), ctx=ctx, bind_cli=(cip if explicit else None),
-                       style=("accept" if acc else None), close_first=reuse_ss and rng.random() < 0.5,
-                       move_p=(0.0 if reuse_ss else 0.25), new_p=(0.0 if reuse_ss else 0.2))
-        if acc is None:
-            acc = c; sip = c["sip"]
-        last = c
-        m_fwd = look(cip, sip); m_rev = look(sip, cip)
+        # the accept is posted only after the SYN arrived: the accepted socket gets the connection from the acceptor's queue
+        late = rng.choice([1000000, 50000000, 300000000]) if rng.random() < 0.25 else None
+        if redial:
+            tgts = [(n[0], ip) for n in cfg.nodes if n[0] != cli for ip in cfg.v4(n[0])]
+            far = [t for t in tgts if look(cip, t[1]) != last_mtu[0] or look(t[1], cip) != last_mtu[1]]
+            srv2, sip2 = rng.choice(far or tgts)
+            ctx = P.at(3000000000 * k)
+            P.do(ctx, "%s.close" % last["cs"])
+            c = tg.connect(rng, P, cfg, 8000 + k, srv2, cli, sip=sip2, cs=last["cs"], ctx=ctx, bind_cli=(cip if explicit else None),
+                           move_p=0.2, new_p=0.2, late_accept=late)
+        else:
+            # (the object a socket-returning accept creates exists only once that accept completed: never reused by name)
+            reuse_ss = acc is not None and not acc["fresh"] and not acc.get("moved") and rng.random() < 0.3
+            # one accept at a time: the next one is issued from the previous accept's handler, or (when
+            # the accepted socket object is reused) much later
+            if k == 0: ctx = "top"
+            elif reuse_ss: ctx = P.at(3000000000 * k)
+            else: ctx = lastacc["hacc"]
+            c = tg.connect(rng, P, cfg, 8000, srv, cli, sip=sip, a=(acc["a"] if acc else None),
+                           ss=(acc["ss"] if reuse_ss else None), ctx=ctx, bind_cli=(cip if explicit else None),
+                           style=("accept" if acc else None), close_first=reuse_ss and rng.random() < 0.5,
+                           move_p=(0.0 if reuse_ss else 0.25), new_p=(0.0 if reuse_ss else 0.2), late_accept=late)
+            if acc is None:
+                acc = c; sip = c["sip"]
+            lastacc = c
+        last = c; last_cli = cli
+        m_fwd = look(cip, c["sip"]); m_rev = look(c["sip"], cip)
+        last_mtu = (m_fwd, m_rev)
         # keep tiny-MSS transfers short: every byte is a packet
         tot_f = rng.choice(around(rng, m_fwd)) + rng.choice([0, 0, m_fwd, 2 * m_fwd + 1]); tot_f = min(tot_f, 60 if m_fwd < 28 else 12000)
         tot_r = rng.choice(around(rng, m_rev)) + rng.choice([0, 0, m_rev, 2 * m_rev + 1]); tot_r = min(tot_r, 60 if m_rev < 28 else 12000)
@@ -145,7 +163,7 @@ def mixed_scenario(rng, sid):
     look = mtu_table(rng, cfg)
     P = Prog(rng)
     srv = rng.choice(cfg.nodes)[0]; cli = rng.choice([n[0] for n in cfg.nodes if n[0] != srv])
-    c = tg.connect(rng, P, cfg, 8000, srv, cli)
+    c = tg.connect(rng, P, cfg, 8000, srv, cli, late_accept=(rng.choice([1000000, 50000000, 300000000]) if rng.random() < 0.25 else None))
     cip = cfg.v4(cli)[0]
     m_fwd = look(cip, c["sip"]); m_rev = look(c["sip"], cip)
     tg.writer(rng, P, c["cs"], c["hcon"], 10, min(3 * m_fwd + 2, 40 if m_fwd < 28 else 9000), around(rng, m_fwd), bufs=(1, 1, 2))
